@@ -508,7 +508,9 @@ func runTmpDone(c Case) Result {
 		return mode == "r"
 	})
 	if mode == "r" {
-		cl.RunHandlers(&girc.Event{Command: strings.ToUpper(cmd)})
+		// in a goroutine of its own: nothing here relies on RunHandlers returning while a
+		// background handler is still running
+		go cl.RunHandlers(&girc.Event{Command: strings.ToUpper(cmd)})
 		select {
 		case <-entered:
 		case <-time.After(10 * time.Second):
